@@ -246,10 +246,19 @@ class ndarray:
             yield self[i]
 
     def flatten(self, order="C"):
+        if order in ("K", "A", "F") and self.ndim > 1:
+            # memory order: axes sorted by decreasing stride ("K"); "F" = first axis fastest; "A" = F only for F-contiguous data
+            if order == "F" or (order == "A" and self._strides == _cstrides(self.shape[::-1])[::-1] and self._strides != _cstrides(self.shape)):
+                perm = list(range(self.ndim))[::-1]
+            elif order == "K":
+                perm = sorted(range(self.ndim), key=lambda a: (-builtins.abs(self._strides[a]), a))
+            else:
+                perm = list(range(self.ndim))
+            return ndarray._from_list(self.transpose(perm)._items(), (self.size,), self.dtype)
         return ndarray._from_list(self._items(), (self.size,), self.dtype)
 
     def ravel(self, order="C"):
-        return self.flatten()
+        return self.flatten(order)
 
     def reshape(self, *shape):
         if len(shape) == 1 and isinstance(shape[0], (tuple, list)):
